@@ -72,7 +72,7 @@ CHECKS = {
                 'peer_connected sends the whole current set to the new connection before registering it and preserves the invariant; subscribe / unsubscribe change the set, announce a change of the set to EVERY registered peer whatever happens on the other connections (each peer\'s connection is attempted exactly once), and preserve the invariant whenever they report success. '
                 'Two genuine defects were found this way and repaired (fix: commits, known_findings.json): process_subs stopped at the first failing peer; subscribe / unsubscribe announced calls that did not change the set, so that counting peers and late joiners disagreed.',
         'design_ref': 'DESIGN.md 10.2g, 5 (F7, F8)',
-        'note': 'Sequential scope: a peer connecting concurrently with a subscribe call is not decided. Assumed: scc cursor model, FramedWrite::send stand-in, HashSet<String> insert / remove / iteration as assumed expressions over a ghost set of octet strings, `.unwrap()` on the snapshot send as return-only-if-Ok (the panic of the accept task is not claimed absent).',
+        'note': 'Sequential scope: a peer connecting concurrently with a subscribe call is not decided. Assumed: scc cursor model, FramedWrite::send stand-in, String-key / UTF-8 axioms for the HashSet<String> (insert / remove verified against the vstd specs), the snapshot iteration (iter().map(closure).collect()) as an assumed expression, `.unwrap()` on the snapshot send as return-only-if-Ok (the panic of the accept task is not claimed absent).',
         'technique': 'Verus contracts + a ghost fold (RFC 29 counting) over per-connection wire logs; invariant preservation per call; prophecy-chained cursor stand-in for the scc traversal',
     },
     'C03': {
